@@ -26,7 +26,7 @@ ASSUMPTIONS = [
     'planet_sma is a documented alias of planet_distance and follows it; when both names are fitted the one later in fitting order determines the value',
     'bounds and values are positive (log modes are defined for them)',
 ]
-REQUIRED = {'observation:derived-only': 0.15, 'recompile-after-change': 0.3, 'prior-mode-mismatch': 0.08, 'derived-toggled': 0.2, 'has-update': 0.3,
+REQUIRED = {'observation:derived-only': 0.1, 'recompile-after-change': 0.3, 'prior-mode-mismatch': 0.08, 'derived-toggled': 0.2, 'has-update': 0.3,
             'unknown-name': 0.1}
 # coverage-guided extra (thorough tier): pure-Python taurex modules on this property's path, instrumented by atheris
 FUZZ = {'include': ['taurex.optimizer.optimizer', 'taurex.core', 'taurex.data.fittable'], 'runs': 12000, 'workers': 4}
